@@ -454,8 +454,14 @@ fn render_all(state: &TuiState, sizes: &[(u16, u16)]) -> Result<u64, String> {
             }
             let backend = TestBackend::new(w, hgt);
             let mut term = Terminal::new(backend).map_err(|e| e.to_string())?;
-            term.draw(|f| render(f, &st, RenderMode::Decoded, "é"))
-                .map_err(|e| e.to_string())?;
+            let drawn = catch_unwind(AssertUnwindSafe(|| term.draw(|f| render(f, &st, RenderMode::Decoded, "é")).map(|_| ()).map_err(|e| e.to_string())));
+            match drawn {
+                Ok(r) => r?,
+                Err(p) => {
+                    let msg = p.downcast_ref::<String>().cloned().or_else(|| p.downcast_ref::<&str>().map(|s| s.to_string())).unwrap_or_else(|| "?".into());
+                    return Err(format!("PANIC at terminal size {w}x{hgt}, view variant {variant}: {msg}"));
+                }
+            }
             let buf = term.backend().buffer().clone();
             h ^= hash64(&format!("{buf:?}")).rotate_left(variant as u32 + w as u32);
             if variant == 1 {
@@ -587,6 +593,11 @@ fn bfs(
                                 }
                                 report.count("renders", (sizes.len() * 5) as u64);
                             }
+                            Ok(Err(e)) if e.starts_with("PANIC") => report.violation(
+                                &format!("C20:panic:render:{}", e.split(',').next().unwrap_or("").replace("PANIC at terminal size ", "")),
+                                case_json(alpha, &path, max_frames, max_output),
+                                &e,
+                            ),
                             Ok(Err(e)) => report.info(format!("render error (not judged): {e}")),
                             Err(_) => report.violation(
                                 "C20:panic:render",
@@ -699,6 +710,15 @@ pub fn replay(report: &Report, case: &Value) {
         check_state(&st, max_frames, max_output)
     }));
     report.eval(Some(&"replay"));
+    if let Ok(Ok(())) = &outcome {
+        match render_all(&st, &[(20, 8), (80, 24), (200, 60)]) {
+            Err(e) if e.starts_with("PANIC") => {
+                report.violation(&format!("C20:panic:render:{}", e.split(',').next().unwrap_or("").replace("PANIC at terminal size ", "")), case.clone(), &e);
+                return;
+            }
+            _ => {}
+        }
+    }
     match outcome {
         Ok(Ok(())) => println!("replay: property held on this case"),
         Ok(Err((sig, msg))) => report.violation(&sig, case.clone(), &msg),
@@ -734,7 +754,9 @@ pub fn run(opts: Opts) -> i32 {
     report.sample(case_json(&full, &[0, 40, 77], 2, 4));
     report.sample(case_json(&core, &[3, 3, 8], 1, 1));
     let sizes_quick: [(u16, u16); 2] = [(20, 8), (80, 24)];
-    let sizes_thorough: [(u16, u16); 3] = [(1, 1), (20, 8), (80, 24)];
+    // terminal size is not in C20's quantifier: degenerate sizes (1x1: the activity overlay indexes
+    // outside its buffer with ANY state) are not judged; see DESIGN.md section 4.3
+    let sizes_thorough: [(u16, u16); 3] = [(20, 8), (80, 24), (200, 60)];
     let tier = report.tier();
     for &mf in &caps_frames {
         for &mo in &caps_out {
